@@ -9,7 +9,7 @@ kind 'loop' : observe the dispatch loop.  In the worker process (never in /repo)
               after calling the real method (a generated skip pattern on top of the natural ones).
 kind 'cli'  : no wrapping at all (real pathos pool when threads > 1); only the FASTA is read back.
 """
-import argparse, os, sys, importlib, shutil, logging
+import argparse, os, sys, importlib, shutil, logging, copy
 from pathlib import Path
 importlib.import_module('moPepGen.cli.call_variant_peptide')
 CVP = sys.modules['moPepGen.cli.call_variant_peptide']
@@ -18,7 +18,8 @@ from moPepGen import cli
 _WD = ['.']
 _N = [0]
 _REAL = dict(pool=CVP.ParallelPool, reducer=CVP.caller_reducer,
-             gather=CVP.VariantPeptideCaller.gather_data_for_call_variant)
+             gather=CVP.VariantPeptideCaller.gather_data_for_call_variant,
+             wrapper=CVP.call_variant_peptides_wrapper)
 
 def init(wd):
     _WD[0] = wd
@@ -65,7 +66,8 @@ def setup(c):
            '-p', os.path.join(d, 'proteome.fasta')]
     if c.get('index_dir'):
         idx = os.path.join(d, 'index')
-        a = P.parse_args(['generateIndex', '-o', idx, '-q', '--cleavage-exception', c.get('exc', 'none')] + ref)
+        a = P.parse_args(['generateIndex', '-o', idx, '-q', '--cleavage-exception', c.get('exc', 'none')]
+                         + [str(x) for x in c.get('cleavage_args', [])] + ref)
         a.func(a)
         ref = ['--index-dir', idx]
     if c.get('gvf_idx'):
@@ -78,6 +80,7 @@ def call_variant(c, d, ref, gvfs, P):
     out = os.path.join(d, 'out.fasta')
     argv = ['callVariant', '-i'] + gvfs + ['-o', out, '--threads', str(c['threads']), '-q',
                                          '--cleavage-exception', c.get('exc', 'none')] + ref
+    argv += [str(x) for x in c.get('cleavage_args', [])] + [str(x) for x in c.get('call_args', [])]
     if c.get('noncanonical'):
         argv.append('--noncanonical-transcripts')
     if c.get('skip_failed'):
@@ -101,7 +104,8 @@ def handle(c):
             def map(self, f, xs):
                 xs = list(xs)
                 batches.append([x['tx_id'] for x in xs])
-                return [_REAL['reducer'](x) for x in xs]
+                # a real pool pickles every dispatch into its worker process: emulate the isolation
+                return [_REAL['reducer'](copy.deepcopy(x)) for x in xs]
 
         def reducer(dispatch):
             batches.append([dispatch['tx_id']])
@@ -114,15 +118,32 @@ def handle(c):
             gathered.append([tx_id, not r])
             return r
 
+        # forced timeouts: the FIRST attempt of the listed transcripts raises TimeoutError (what
+        # common.timeout raises when --timeout-seconds expires), so caller_reducer's retry path runs
+        pending_timeouts = list(c.get('timeout_tx', []))
+        attempts = []
+
+        def timed_wrapper(**dispatch):
+            tx = dispatch['tx_id']
+            attempts.append([tx, dispatch['cleavage_params'].max_variants_per_node,
+                             dispatch['cleavage_params'].additional_variants_per_misc])
+            if tx in pending_timeouts:
+                pending_timeouts.remove(tx)
+                raise TimeoutError('forced by the harness')
+            return _REAL['wrapper'](**dispatch)
+
+        if c.get('timeout_tx'):
+            CVP.call_variant_peptides_wrapper = timed_wrapper
         CVP.ParallelPool = SerialPool
         CVP.caller_reducer = reducer
         CVP.VariantPeptideCaller.gather_data_for_call_variant = gather
         try:
             peps = call_variant(c, d, ref, gvfs, P)
         finally:
+            CVP.call_variant_peptides_wrapper = _REAL['wrapper']
             CVP.ParallelPool = _REAL['pool']
             CVP.caller_reducer = _REAL['reducer']
             CVP.VariantPeptideCaller.gather_data_for_call_variant = _REAL['gather']
-        return {'peptides': peps, 'batches': batches, 'gathered': gathered}
+        return {'peptides': peps, 'batches': batches, 'gathered': gathered, 'attempts': attempts}
     finally:
         shutil.rmtree(d, ignore_errors=True)
